@@ -248,5 +248,6 @@ def main(tier):
 
 
 def replay(path):
-    print(json.dumps(json.load(open(path)), indent=1))
-    return 1
+    from ..core import replay_by_rerun
+
+    return replay_by_rerun(main, path)
